@@ -800,36 +800,50 @@ class StmtMixin:
         if s.get("Key") and s["Key"].get("Name") != "_" and tok == ":=":
             st.vars[s["Key"]["obj"]] = self.int_of(idx(0), self.T(s["Key"]))
         self.check_invariants(s, st, "entry")
-        head = st.fork()
-        self.havoc_for_loop(s, head, [s.get("Body")])
-        i = self.fresh("i", IS)
-        head.vars[itkey] = i
-        self.assume(head, z3.And(i >= 0, i <= n))
-        if s.get("Key") and s["Key"].get("Name") != "_":
-            self.assign_to(s["Key"], self.int_of(i, self.T(s["Key"])), head, tok)
-        self.assume_invariants(s, head)
-        body = head.fork(zand(head.pc, i < n))
-        step = idx(1)
-        if s.get("Value") and s["Value"].get("Name") != "_":
-            if isstr:
-                v, step = self.decode_rune(body, xv, i)
-            elif u.k == "array":
-                v = self.arr_get(xv, i)
-            else:
-                v = self.slice_get(body, xv, i)
-            self.assign_to(s["Value"], v, body, tok)
-        elif isstr:
-            _, step = self.decode_rune(body, xv, i)
-        fr.loops.append(ctx)
-        self.in_loop += 1
-        out = self.ex(s["Body"], body)
-        self.in_loop -= 1
-        out = self.merge_all([o for o in [out] + ctx.continues if o is not None])
-        fr.loops.pop()
+        havoc_ev = set()
+        while True:
+            # counted operations performed on iterating paths are havoc'd at the head (see ex_ForStmt)
+            snap = self.exec_snapshot(fr)
+            ctx.breaks, ctx.continues = [], []
+            head = st.fork()
+            self.havoc_for_loop(s, head, [s.get("Body")])
+            self.havoc_counters(head, havoc_ev)
+            i = self.fresh("i", IS)
+            head.vars[itkey] = i
+            self.assume(head, z3.And(i >= 0, i <= n))
+            if s.get("Key") and s["Key"].get("Name") != "_":
+                self.assign_to(s["Key"], self.int_of(i, self.T(s["Key"])), head, tok)
+            self.assume_invariants(s, head)
+            iter_pre = head.fork()
+            body = head.fork(zand(head.pc, i < n))
+            step = idx(1)
+            if s.get("Value") and s["Value"].get("Name") != "_":
+                if isstr:
+                    v, step = self.decode_rune(body, xv, i)
+                elif u.k == "array":
+                    v = self.arr_get(xv, i)
+                else:
+                    v = self.slice_get(body, xv, i)
+                self.assign_to(s["Value"], v, body, tok)
+            elif isstr:
+                _, step = self.decode_rune(body, xv, i)
+            fr.loops.append(ctx)
+            self.in_loop += 1
+            try:
+                out = self.ex(s["Body"], body)
+            finally:
+                self.in_loop -= 1
+            out = self.merge_all([o for o in [out] + ctx.continues if o is not None])
+            fr.loops.pop()
+            more = self.loop_counter_changes(s, head, out) - havoc_ev if out is not None else set()
+            if not more:
+                break
+            havoc_ev |= more
+            self.exec_restore(fr, snap)
         if out is not None:
-            ch = self.loop_counter_changes(s, head, out)
-            if ch:
-                raise Unsupported("range loop %d performs the counted operation(s) %s on a path that iterates again" % (s.get("loop", 0), ", ".join(sorted(ch))))
+            for cl in self.loop_clauses(s, "preserves"):
+                g = self.eval_clause(cl, out, old=iter_pre)
+                self.oblige(out, "preserves", "loop%d-%s" % (s.get("loop", 0), cl["label"]), g, cl.get("ln"), cl["text"])
             out.vars[itkey] = i + step
             if s.get("Key") and s["Key"].get("Name") != "_":
                 self.assign_to(s["Key"], self.int_of(i + step, self.T(s["Key"])), out, "=")
